@@ -199,7 +199,22 @@ def oracle(c, o):
         fs = o["ok"]["factors"]
         if any(A != fs[0] for A in fs):
             return "factors of the symmetrised Kruskal tensor are not identical"
-        return None if o["issym"] else "result does not pass ktensor.issymmetric"
+        if not o["issym"]:
+            return "result does not pass ktensor.issymmetric"
+        if a["kind"] == "symmetric":        # a symmetric input keeps its value
+            def kden(w, f, i):
+                t = Fraction(0)
+                for r in range(len(w)):
+                    p_ = Fraction(w[r])
+                    for n_, A in enumerate(f):
+                        p_ *= Fraction(A[i[n_]][r])
+                    t += p_
+                return t
+            for i in tgen.all_subs([len(A) for A in a["f"]]):
+                x, y = kden(o["ok"]["weights"], fs, i), kden(a["w"], a["f"], i)
+                if abs(x - y) > Fraction(1, 10 ** 9) * max(1, abs(y)):
+                    return f"symmetric Kruskal tensor changed value at {i}: {float(x)} instead of {float(y)}"
+        return None
     groups = groups_of(a)
     shape = a["shape"]
     if c.op == "issymmetric":
